@@ -153,7 +153,7 @@ theorem hRun_linv (nums start : List Nat) (maxIter : Int) (tp td : K)
                   · rw [Nat.add_assoc, Nat.add_sub_cancel_left]; exact Nat.mod_eq_of_lt (by omega)
                 simp only [hr, if_true] at hlab ⊢
                 rw [hlab]
-                split_ifs <;> omega
+                omega
               · have hr' : st.retro = false := by simpa using hr
                 have hq := hm'.1 hr' L hL
                 rw [Dn_succ _ _ _ _ hpt, Un_succ _ _ _ _ hpt] at hq
@@ -206,7 +206,7 @@ theorem hRun_linv (nums start : List Nat) (maxIter : Int) (tp td : K)
               apply ih
               unfold LInv
               right; right
-              refine ⟨by simp [hnr], by simp; omega, by simp; omega, by simp [hbl], ?_⟩
+              refine ⟨hnr, by simp; omega, by simp; omega, by simp [hbl], ?_⟩
               intro _
               refine ⟨fun _ => ?_, fun hc => absurd hc (by simp [hretro])⟩
               intro L hL
@@ -231,7 +231,7 @@ theorem hRun_linv (nums start : List Nat) (maxIter : Int) (tp td : K)
                 by_cases hp1 : st.p ≤ 0
                 · left; simp [hp1]
                 · right; right
-                  refine ⟨by simp [hnr], by simp; omega, by simp; omega, by simp [hbl], ?_⟩
+                  refine ⟨hnr, by simp; omega, by simp; omega, by simp [hbl], ?_⟩
                   intro _
                   refine ⟨fun hc => absurd hc (by simp), fun _ => ⟨by simp; omega, ?_⟩⟩
                   intro L hL
@@ -261,7 +261,7 @@ theorem hRun_linv (nums start : List Nat) (maxIter : Int) (tp td : K)
                   intro c' hc'
                   unfold LInv
                   right; right
-                  refine ⟨by simp [hnr], hp0, hpN, by simp [hbl], hpl, hretro, ?_⟩
+                  refine ⟨hnr, hp0, hpN, by simp [hbl], hpl, hretro, ?_⟩
                   intro L hL
                   have h1 := hcs L
                   have h2 := hq L hL
